@@ -36,6 +36,10 @@ FIRST_MISSED = {
     "C05-4": "no check reported it -> DUPLEX (read side and write side of the record layer share no state)",
     "C08-4": "own property silent (reported by C05 DUPLEX; same change as C05-4, written independently) -> C08 shares DUPLEX",
     "C09-4": "no check reported it -> WIN-4: the exact-ACK leg needs a non-empty test",
+    "C10-3": "no check reported it -> GBNHS-1: every nil return of serverHandshake outside the quit/ctx cases is preceded by setN",
+    "C10-4": "no check reported it -> GBNHS-6: the handshake timeout is re-armed on every path from a wait back to itself",
+    "C11-3": "no check reported it -> EXCL: close(quit) comes after the gbn connection and both relay streams are released",
+    "C11-4": "no check reported it -> SIDFRESH: after the closer, no return and no Refresh before the old connection is forgotten",
     "C06-3": "no check reported it -> RATELIMIT: once lastResend is refreshed the packets are transmitted",
 }
 
